@@ -290,7 +290,9 @@ def gen_cycle(rng):
                             {'a': {'b': '$replace:a.b'}}, {'a': {'$merge': ['a']}}])]
     elif kind == 'ancestor':
         docs = [rng.choice([{'a': {'b': {'$merge': 'a'}}}, {'a': {'a': 1, '$merge': []}}, {'a': {'b': {'c': {'$merge': 'a.b'}}}}, {'a': {'b': '$merge:a'}}, {'a': {'b': [{'$merge': 'a'}]}},
-                            {'x': {'y': {'$replace': 'x'}}}, {'a': {'b': {'$merge': 'a', 'k': 1}, 'c': 2}}, {'$merge': 'a', 'a': {'b': {'$merge': 'a'}}}])]
+                            {'x': {'y': {'$replace': 'x'}}}, {'a': {'b': {'$merge': 'a', 'k': 1}, 'c': 2}}, {'$merge': 'a', 'a': {'b': {'$merge': 'a'}}},
+                            {'a': {'b': [{'$merge': 'a', 'k': 1}]}}, {'svc': {'sidecars': [{'name': 'proxy', '$merge': 'svc'}, 1]}}, {'a': [[{'x': 1, '$merge': 'a'}]]},
+                            {'a': {'l': [{'m': {'$merge': 'a', 'k': 1}}]}}])]
     elif kind == 'branch':
         docs = [rng.choice([{'c': {'a': {'$merge': 'c'}, 'c': {'$merge': 'c', 'a': 'q'}}}, {'c': {'a': '$merge:c', 'b': '$merge:c'}}, {'p': {'a': {'$merge': 'q'}, 'b': {'$merge': 'q'}}, 'q': {'a': {'$merge': 'p'}, 'b': {'$merge': 'p'}}},
                             {'l': [{'$merge': 'm'}, {'$merge': 'm'}], 'm': [{'$merge': 'l'}, {'$merge': 'l'}]}, {'a': {'$replace': 'b'}, 'b': {'x': {'$replace': 'a'}, 'y': {'$replace': 'a'}}}])]
@@ -317,7 +319,7 @@ def fixed_cases(tier):
         out.append(gen_cycle(r))
     for t in ('bkl', 'bkl-o', 'bkld', 'bkli', 'bklr'):
         out.append({'kind': 'fault', 'tool': t})
-    for d in ({'$merge:a': 1, 'a': 5}, {'$"{a}"': 1, 'a': 5}, {'$repeat': 2, '$repeat2': 1}, {'a': {'$repeat': 2, 'k': 1}}, {'$env:HOME': {'$repeat': 1}}, {'k': {'$repeat': 1, '$value': 2}}):
+    for d in ({'$repeat': 0, 'a': 1}, [{'$repeat': 0}, 1], {'$repeat': 1, 'a': 1}, {'$repeat': {'a': 0}, 'b': 1}, {'$output': False, 'a': 1}, {'$merge:a': 1, 'a': 5}, {'$"{a}"': 1, 'a': 5}, {'$repeat': 2, '$repeat2': 1}, {'a': {'$repeat': 2, 'k': 1}}, {'$env:HOME': {'$repeat': 1}}, {'k': {'$repeat': 1, '$value': 2}}):
         out.append({'kind': 'struct', 'layers': [[d]], 'fmt': 'json', 'files': True, 'tools': True})
     return out
 
